@@ -44,7 +44,7 @@ def _parse(inp):
 def oracle_C09(inp, out):
     """a failed write (-5) leaves the raw parts unchanged; successful pushes are popped back in
     LIFO order afterwards (everything encoded before the failure still decodes; encoding goes on)"""
-    if any(x in (-999999, -999998, -999997) for x in out):
+    if any(x in (-999999, -999998, -999997, -999996) for x in out):
         return "panic/abort/timeout"
     ms, cap, ops = _parse(inp)
     pending = []
